@@ -166,6 +166,7 @@ type run struct {
 	hRetAt   atomic.Int64 // unix nanos at which the handler began returning
 	cGot     atomic.Int64 // responses received by the client
 	inRepeat atomic.Bool  // client is inside Receive after the terminal result was returned
+	inSend   atomic.Bool  // client is inside Send
 	inEOF    atomic.Bool  // handler is inside a Receive that must yield end-of-stream
 	closeIdx int          // index of the client's CloseSend op (-1: none)
 	cDone    chan struct{}
@@ -478,7 +479,9 @@ func (r *run) client(stream freighter.ClientStream[Req, Res]) {
 		}
 		switch op.Kind {
 		case "send":
+			r.inSend.Store(true)
 			err := stream.Send(Req{Seq: exp.seq, Data: payload(0, max(exp.seq, 0), exp.size), Tags: tagsOf(0, exp.seq), Vals: valsOf(0, exp.seq)})
+			r.inSend.Store(false)
 			r.tick()
 			if r.stopped() {
 				break
@@ -770,6 +773,15 @@ func (tp *transport) execute(sc Script, rep *kit.Report) error {
 			case r.inRepeat.Load():
 				if stalled > int(repeatWatchdog/tickEvery) {
 					r.fail("terminal-repeat-blocks", "a Receive call made after the client had already received the terminal result did not return within %v (handler returned %s)", repeatWatchdog, r.kind.name)
+					stalled = 0
+				}
+			case r.inSend.Load() && r.hRetAt.Load() != 0 && time.Since(time.Unix(0, r.hRetAt.Load())) > repeatWatchdog:
+				// The handler has returned, so the stream is over on the server side and
+				// nothing the peer does can be awaited any more: a client Send that stays
+				// blocked keeps the client from ever receiving the responses and the terminal
+				// result the handler's return entitles it to.
+				if stalled > int(repeatWatchdog/tickEvery) {
+					r.fail("send-blocks-after-handler-return", "the handler returned %s more than %v ago and the client's Send is still blocked: the client can never receive the responses sent before the return and the terminal result", r.kind.name, repeatWatchdog)
 					stalled = 0
 				}
 			case r.eofOverdue():
